@@ -92,6 +92,9 @@ def witnesses(classes):
     xs3 = (_H + '<xs:notation name="gif" public="image/gif"><xs:annotation><xs:documentation>about gif</xs:documentation></xs:annotation></xs:notation>'
            '<xs:element name="root" type="xs:string"/></xs:schema>').encode()
     add('notation-annotation', [('xsd', 'file:///xv/p/w.xsd', xs3)], [b'<w:root xmlns:w="urn:w">t</w:root>'], lock=0, psvi=1, scanner='IG')
+    xs4 = (_H + '<xs:simpleType name="b"><xs:restriction base="xs:boolean"><xs:whiteSpace value="collapse"><xs:annotation><xs:documentation>on a facet that is not kept</xs:documentation>'
+           '</xs:annotation></xs:whiteSpace></xs:restriction></xs:simpleType><xs:element name="root" type="w:b"/></xs:schema>').encode()
+    add('annotation-on-dropped-facet', [('xsd', 'file:///xv/p/w.xsd', xs4)], [b'<w:root xmlns:w="urn:w">true</w:root>'], lock=0, psvi=1, scanner='IG')
     return W
 
 
@@ -169,18 +172,19 @@ def enum_violations(phase, tag, la, lb):
                 va, vb = fa.get(fld), fb.get(fld)
                 if va == vb:
                     continue
-                sub = ''
+                subs = ['']
                 if kind == 'SGR' and fld == 'annotations' and va is not None and vb is not None:
-                    # the list of all annotations of a grammar, each entry labelled {owner kind}: name the owner kinds that lost / gained entries
+                    # the table of all annotations of a grammar, each entry labelled {owner kind}: one key per owner kind that lost / gained entries
                     ea, eb = collections.Counter(va[1:-1].split(' || ')), collections.Counter(vb[1:-1].split(' || '))
                     lost = sorted(set(re.match(r'\{([^}]*)\}', e).group(1) for e in (ea - eb).elements() if e.startswith('{')))
                     gained = sorted(set(re.match(r'\{([^}]*)\}', e).group(1) for e in (eb - ea).elements() if e.startswith('{')))
-                    sub = (':lost-from-' + '+'.join(lost) if lost else '') + (':gained-on-' + '+'.join(gained) if gained else '')
-                k2 = 'C16:enumeration-differs:%s:%s:%s%s' % (phase, kind, fld, sub)
-                if k2 not in seen:
-                    seen.add(k2)
-                    out.append((k2, '%s: %s %s field %s differs between pool A and pool %s: %r vs %r' % (phase, kind, key[1], fld, tag, (va or '')[:200], (vb or '')[:200]),
-                                {'component': list(key), 'field': fld, 'A': va, tag: vb}))
+                    subs = [':lost-from-' + x for x in lost] + [':gained-on-' + x for x in gained] or [':changed']
+                for sub in subs:
+                    k2 = 'C16:enumeration-differs:%s:%s:%s%s' % (phase, kind, fld, sub)
+                    if k2 not in seen:
+                        seen.add(k2)
+                        out.append((k2, '%s: %s %s field %s differs between pool A and pool %s: %r vs %r' % (phase, kind, key[1], fld, tag, (va or '')[:200], (vb or '')[:200]),
+                                    {'component': list(key), 'field': fld, 'A': va, tag: vb}))
     return out
 
 
